@@ -188,7 +188,31 @@ where
         commit: Option<CommitHash>,
         checkpoint: CommitProof,
     ) -> StdResult<Diff<T>, Self::Error> {
-        let patch = self.diff_events(commit.as_ref()).await?;
+        let patch = match self.position_of(commit.as_ref(), &checkpoint) {
+            // The checkpoint is the head of the other log so it
+            // gives the position of the commit; looking for the hash
+            // finds the wrong record when an event occurs twice
+            Some(position) => {
+                let wanted = self.tree.len() - position;
+                let mut records = Vec::with_capacity(wanted);
+                let mut it = self.iter(true).await?;
+                while records.len() < wanted {
+                    match it.next().await? {
+                        Some(record) => {
+                            let event_buffer =
+                                read_event_buffer(&self.data, &record)
+                                    .await?;
+                            records
+                                .push(record.into_event_record(event_buffer));
+                        }
+                        None => break,
+                    }
+                }
+                records.reverse();
+                Patch::new(records)
+            }
+            None => self.diff_events(commit.as_ref()).await?,
+        };
         Ok(Diff::<T> {
             last_commit: commit,
             patch,
@@ -527,6 +551,27 @@ where
     /// Path to the event log file.
     pub fn file_path(&self) -> &PathBuf {
         &self.data
+    }
+
+    /// Number of leading records that a log whose head is the
+    /// checkpoint shares with this log, when the checkpoint
+    /// proves the commit at that position.
+    fn position_of(
+        &self,
+        commit: Option<&CommitHash>,
+        checkpoint: &CommitProof,
+    ) -> Option<usize> {
+        let commit = commit?;
+        let position = checkpoint.len();
+        if position == 0 || position > self.tree.len() {
+            return None;
+        }
+        let leaves = self.tree.leaves()?;
+        if leaves.get(position - 1) == Some(commit.as_ref()) {
+            Some(position)
+        } else {
+            None
+        }
     }
 
     async fn truncate(&mut self) -> StdResult<(), E> {
